@@ -17,7 +17,8 @@ SPEC = {
                    "PyMatterSim.neighbors.calculate_neighbors:cutoffneighbors_particletype",
                    "PyMatterSim.neighbors.read_neighbors:read_neighbors"],
     "floors": {"nnearest_set": 800, "cutoff_set": 800, "typecut_set": 800, "order": 1500, "symmetry": 100,
-               "reader": 300, "eof": 100, "inclusive_boundary": 20, "hostile_files": 30},
+               "reader": 300, "eof": 100, "inclusive_boundary": 20, "hostile_files": 30,
+               "file_replaced_with_preserved_time_stamp": 8},
     "rule": ("{gas, perturbed lattice, cluster, hard-core} x {2D,3D} x {orthogonal, triclinic} x masks x N_nn 1..n-1 x "
              "r_cut at random quantiles and exactly on a pair distance (power-of-two boxes) x type-pair cutoff matrices "
              "K 1..3 (symmetric and asymmetric) x 1..4 frames, each file read back frame by frame on one handle with "
@@ -325,16 +326,33 @@ def hostile_file(ctx, rng, wd):
     frames = int(rng.integers(1, 5))
     is_list = rng.random() < 0.6
     fn = os.path.join(wd, "hostile.dat")
-    with open(fn, "w") as f:
-        for _ in range(frames):
-            f.write("id     cn     neighborlist\n" if is_list else rng.choice(["id   cn   facearealist\n", "id cn edgelengthlist\n"]))
-            for i in rng.permutation(n):
-                cn = int(rng.integers(0, min(n, 9)))
-                if is_list:
-                    vals = [str(int(v) + 1) for v in rng.choice(n, size=cn, replace=False)]
-                else:
-                    vals = ["%.6f" % v for v in rng.uniform(-2, 5, size=cn)]
-                f.write(" ".join([str(i + 1), str(cn)] + vals) + ("\n" if rng.random() < 0.7 else " \n"))
+
+    def write():
+        with open(fn, "w") as f:
+            for _ in range(frames):
+                f.write("id     cn     neighborlist\n" if is_list else rng.choice(["id   cn   facearealist\n", "id cn edgelengthlist\n"]))
+                for i in rng.permutation(n):
+                    cn = int(rng.integers(0, min(n, 9)))
+                    if is_list:
+                        vals = [str(int(v) + 1) for v in rng.choice(n, size=cn, replace=False)]
+                    else:
+                        vals = ["%.6f" % v for v in rng.uniform(-2, 5, size=cn)]
+                    f.write(" ".join([str(i + 1), str(cn)] + vals) + ("\n" if rng.random() < 0.7 else " \n"))
+    if rng.random() < 0.4:
+        # history: another file of the same shape lived under this name, was read in full with the same arguments, and was then replaced by
+        # the present one with its time stamp preserved (cp -p, restored from a backup): the content decides
+        from PyMatterSim.neighbors.read_neighbors import read_neighbors
+        write()
+        st = os.stat(fn)
+        for Nmax in (3, 200):
+            with open(fn) as f:
+                for _ in range(frames):
+                    ctx.call("read_neighbors/prior_file", read_neighbors, f, n, Nmax, data={"n": n, "frames": frames})
+        write()
+        os.utime(fn, ns=(st.st_atime_ns, st.st_mtime_ns))
+        ctx.count("file_replaced_with_preserved_time_stamp")
+    else:
+        write()
     info = lambda: {"file_text": open(fn).read()[:4000], "n": n, "frames": frames, "is_list": is_list}  # noqa: E731
     ctx.case("hostile/" + ("list" if is_list else "weights"), open(fn).read(), nontrivial=n >= 3)
     ctx.count("hostile_files")
